@@ -9,6 +9,7 @@ ctx.tier / ctx.seed / ctx.shard / ctx.nshards describe the run; the function cal
   ctx.sample(obj)                          to keep a few written-out cases,
 and sets ctx.bound (text) and ctx.exhaustive.
 """
+import os
 import random
 import time
 import traceback
@@ -87,9 +88,22 @@ def run_bounded(prop, name, tier, seed, shard, nshards):
     try:
         g.fn(ctx)
     except Exception as e:   # noqa
-        out['status'] = 'error'
-        out['reason'] = f"{type(e).__name__}: {e}"
-        out['traceback'] = traceback.format_exc()
+        tb = traceback.extract_tb(e.__traceback__)
+        repo_src = os.path.join(os.environ.get('PV_REPO', '/repo'), 'src') + os.sep
+        inner = [f for f in tb if f.filename.startswith(repo_src)]
+        if inner:
+            # the code under contract raised on an input of the harness (on which it does not raise on the reference tree): a violated contract,
+            # not a failure of the checker.  The rest of this shard's enumeration is lost, which is recorded.
+            f = inner[-1]
+            where = f"{os.path.relpath(f.filename, repo_src)}:{f.name}"
+            ctx.fail(f"{prop}:raises:{type(e).__name__}:{where}", f"the code under contract raised {type(e).__name__}: {str(e)[:200]} in {where} (line {f.lineno}); "
+                     f"the harness did not expect an exception here, the remaining cases of shard {shard} were not evaluated",
+                     {'traceback': traceback.format_exc()[-3000:]})
+            ctx.note(f"shard {shard} aborted by an exception of the code under contract")
+        else:
+            out['status'] = 'error'
+            out['reason'] = f"{type(e).__name__}: {e}"
+            out['traceback'] = traceback.format_exc()
     out.update({
         'evaluations': ctx.evaluations,
         'nontrivial': len(ctx.nontrivial_keys) + ctx.nontrivial_count,
